@@ -923,16 +923,20 @@ def tr_a(x):
     k, v = _node(x)
     if k in ("ObserveNonDet", "AssertIsConsistent", "Cast"):
         return tr_a(v["inner"])
+    # reified aggregates (ranode): the accumulator of a fold is a code when it is one of the
+    # vocabulary closures proved commutative, so that wf_rab can decide the side conditions
     if k == "Fold":
-        return "(AFold %s %s %s)" % (_clos(v["init"]), _clos(v["acc"]), tr_s(v["input"]))
+        acc = _clos(v["acc"])
+        code = {"c_plus": "KPlus", "c_count": "KCount"}.get(acc, "(KOther %s)" % acc)
+        return "(RFold %s %s %s)" % (_clos(v["init"]), code, tr_s(v["input"]))
     if k == "Reduce":
-        return "(AReduce %s %s)" % (_clos(v["f"]), tr_s(v["input"]))
+        return "(RReduce %s %s)" % (_clos(v["f"]), tr_s(v["input"]))
     if k == "FoldKeyed":
-        return "(AFoldKeyed %s %s %s)" % (_clos(v["init"]), _clos(v["acc"]), tr_s(v["input"]))
+        return "(RFoldKeyed %s %s %s)" % (_clos(v["init"]), _clos(v["acc"]), tr_s(v["input"]))
     if k == "ReduceKeyed":
-        return "(AReduceKeyed %s %s)" % (_clos(v["f"]), tr_s(v["input"]))
+        return "(RReduceKeyed %s %s)" % (_clos(v["f"]), tr_s(v["input"]))
     if k == "Map":
-        return "(AMap %s %s)" % (_clos(v["f"]), tr_a(v["input"]))
+        return "(RMap %s %s)" % (_clos(v["f"]), tr_a(v["input"]))
     raise Untranslatable("top-level aggregate node " + k)
 
 
@@ -1005,7 +1009,7 @@ def translate_flow(ir):
         x = v["inner"]
         k, v = _node(x)
     if k != "YieldConcat":
-        return "FS", "(FS %s)" % tr_s(x), _order(v) == "TotalOrder"
+        return "FS", "(rinterp (RS %s))" % tr_s(x), _order(v) == "TotalOrder"
     y = v["inner"]
     expected = _order(_node(y)[1]) == "TotalOrder" if _ck(_node(y)[1])[0] == "Stream" else None
     # snapshot of a top-level singleton / optional / keyed singleton: Cast* (Batch top-level-node)
@@ -1017,8 +1021,8 @@ def translate_flow(ir):
     if zk == "Batch" and _node(zv["inner"])[0] != "Source" and not _is_tick(_node(zv["inner"])[1]):
         ik, iv = _node(zv["inner"])
         if _ck(iv)[0] in ("Stream", "KeyedStream"):
-            return "FS", "(FS %s)" % tr_s(zv["inner"]), _order(iv) == "TotalOrder"
-        return "FA", "(FA %s)" % tr_a(zv["inner"]), None
+            return "FS", "(rinterp (RS %s))" % tr_s(zv["inner"]), _order(iv) == "TotalOrder"
+        return "FA", "(rinterp (RA %s))" % tr_a(zv["inner"]), None
     return "B", tr_b(y), expected
 
 
@@ -1076,6 +1080,14 @@ class Translated:
         exp = "None" if e is None else "(Some %s)" % vlib.g_bool(e)
         fn = "same_bnode" if r["kind"] == "B" else "same_flow"
         return "(%s %s %s %s %s)" % (fn, gen_name(flow), flow, g_ticks(case), exp)
+
+    def wf_term(self, flow):
+        """executable well-formedness check of the translated top-level term (sound by
+        C28_translated_terms_wf_check_sound); None for tick programs / hand-specified flows"""
+        r = self.report.get(flow, {})
+        if r.get("kind") in ("FS", "FA") and r["term"].startswith("(rinterp "):
+            return "(chk_wf %s)" % r["term"][len("(rinterp "):-1]
+        return None
 
     def wrap(self, flow, case, term):
         s = self.same(flow, case)
